@@ -8,7 +8,7 @@ Letters: a string of `a`..`z` (`-` = none).
   new <store|tasker|framer|logger|log|frame> <name> <letters>
   newHouse <name> <letters>
   clear <house|store|tasker|log|frame|framer|logger> | clearRegistries
-  assignRegistries <k> | assignFrameRegistry <k>      (k-th house / framer registered since reset)
+  assignRegistries <k> | assignFrameRegistry <k> | prune <k>   (k-th house / framer registered since reset)
 
 reply:  `<out> | <bindings> | <dicts>`
   out      = `NAME <name> <inst>` | `unit` | `ERR ParameterError` | `NEED-LETTERS` | `NO-SUCH`
@@ -64,6 +64,7 @@ def parseOp : List String → Option Op
   | ["clearRegistries"] => some .clearRegistries
   | ["assignRegistries", k] => do pure (.assignRegistries (← k.toNat?))
   | ["assignFrameRegistry", k] => do pure (.assignFrameRegistry (← k.toNat?))
+  | ["prune", k] => do pure (.prune (← k.toNat?))
   | _ => none
 
 def step (s : St) (line : String) : St × String :=
